@@ -55,6 +55,7 @@ class Env:
 TAGGED_TYPES_FULL = ("Table", "Column", "Index", "Reference", "Enum", "EnumItem", "Note", "Project",
                      "TableGroup", "StickyNote", "Expression")
 TAGGED_TYPES_PARTIAL = ("Table", "Reference", "Note")
+ERR_TYPES = ("Enum", "TableGroup")
 
 
 def tag_text(flavour: str, model: Any) -> str:
@@ -99,6 +100,23 @@ def make_renderers(env: "Env") -> Dict[str, Dict[str, Any]]:
                 return tag_text(_fl, model)
             klass.model_renderers[getattr(C, tn)] = handler
         out[lang]["nodb"] = klass
+        # "err": a full custom renderer whose handlers for Enum and TableGroup fail with AttributeError (a bug in
+        # the user's handler): the error has to surface, not to be replaced by some other renderer's text
+        fl = f"err{lang}"
+
+        def render_db_err(cls, db, _fl=fl):
+            return f"<{_fl}:db:" + "|".join(cls.render(t) for t in db.tables) + ">"
+        klass = type(f"Err{lang.upper()}Renderer", (Base,), {"model_renderers": {}, "render_db": classmethod(render_db_err),
+                                                           "__module__": "verif.sim"})
+        for tn in TAGGED_TYPES_FULL:
+            if tn in ERR_TYPES:
+                def handler(model, _fl=fl):
+                    raise AttributeError(f"{_fl}: handler bug")
+            else:
+                def handler(model, _fl=fl):
+                    return tag_text(_fl, model)
+            klass.model_renderers[getattr(C, tn)] = handler
+        out[lang]["err"] = klass
     return out
 
 
